@@ -113,14 +113,19 @@ def op_transform(m, rng):
         scale = 1
         info = {'normal': nrm, 'point': pt}
     else:
-        a = int(rng.integers(-2, 3))
+        # every coordinate function must see the ORIGINAL coordinates: x' = x + a y, y' = y + b x (both at once)
+        a, b = int(rng.integers(-2, 3)), int(rng.integers(-2, 3))
+        if a * b == 1:
+            b = 0
         d0, d1 = (0, 1) if dim == 2 else [int(x) for x in rng.choice(dim, size=2, replace=False)]
         fs = [None] * dim
         fs[d0] = lambda p, a=a, d0=d0, d1=d1: p[d0] + a * p[d1]
+        fs[d1] = lambda p, b=b, d0=d0, d1=d1: p[d1] + b * p[d0]
         M = m.morphed(*fs)
-        want = [[(x + a * P[d1][j]) if d == d0 else x for j, x in enumerate(P[d])] for d in range(dim)]
-        scale = 1
-        info = {'shear': [d0, d1, a]}
+        want = [[(x + a * P[d1][j]) if d == d0 else ((x + b * P[d0][j]) if d == d1 else x) for j, x in enumerate(P[d])]
+                for d in range(dim)]
+        scale = abs(1 - a * b)
+        info = {'shear': [d0, d1, a, b]}
     what = kind
     got = [[F(x) for x in row] for row in M.p.tolist()]
     need(got == want, what + ':coordinates', 'p is not the transformed p')
@@ -321,7 +326,7 @@ def op_remove_duplicates(m, rng):
     p, t = with_duplicates(m, rng)
     cls = type(m)
     md = cls(p, t)
-    sub, bnd = rand_tags(md, rng, oriented=False)
+    sub, bnd = rand_tags(md, rng, oriented=True)
     md = md.with_subdomains(sub).with_boundaries(bnd)
     M = md.remove_duplicate_nodes()
     what = 'remove_duplicate_nodes'
@@ -339,6 +344,13 @@ def op_remove_duplicates(m, rng):
         ok = gi.size == 0 or (gi.min() >= 0 and gi.max() < M.facets.shape[1])
         need(ok and facet_points(M, gi) == facet_points(md, b), what + ':boundary',
              lambda: f'{nm}: carried-over boundary designates other facets')
+        if getattr(b, 'ori', None) is not None:
+            # an oriented boundary keeps its side: the cell on the tagged side is the same cell (cells keep their numbers)
+            go = getattr(M.boundaries[nm], 'ori', None)
+            need(go is not None and len(gi) == len(b), what + ':orientation-dropped', nm)
+            old = {frozenset(cols(md.p, md.facets[:, int(f)])): int(md.f2t[int(o), int(f)]) for f, o in zip(np.asarray(b), b.ori)}
+            new = {frozenset(cols(M.p, M.facets[:, int(f)])): int(M.f2t[int(o), int(f)]) for f, o in zip(gi, go)}
+            need(old == new, what + ':orientation-side', lambda: f'{nm}: the tagged side changed')
     return M, {'input': mesh_json(md)}
 
 
